@@ -423,6 +423,15 @@ def jobs_c15(tier):
 
 
 CHECKS["C10"]["jobs"] = jobs_c10
+
+
+def _with_handle_lab(prop, flag):
+    base = CHECKS[prop]["jobs"]
+    CHECKS[prop]["jobs"] = lambda tier: base(tier) + [job(c15, "--tier", tier, flag), job(c15_tab, "--tier", tier, flag)]
+
+
+_with_handle_lab("C03", "--c03")
+_with_handle_lab("C06", "--c06")
 CHECKS["C15"] = dict(
     engine="lifetime-lab", level="model_checking", jobs=jobs_c15, build_failure_is_violation=True,
     level_text="transport: for 20 handle-bearing types (handles as members, vector/array elements, Optional, Variant "
@@ -731,3 +740,6 @@ _more("C03", "value domains keep values that encode alike but differ in the stat
              "Result<E,Result<E,U>> value-holding-an-error); nested Results are in the universe (this applies to every codec-lab check)")
 _more("C07", "a fifth reader: StreamReader over a forward-only stream (no seeking, no get area - a pipe, socket or filter stream)")
 _more("C17", "reader side: StreamReader over a forward-only stream that cannot seek")
+_more("C03", "handle-bearing types (26 types incl. nested table entries) are compared with the reference layout by the handle lab (--c03)")
+_more("C06", "handle-bearing types get GetSize >= bytes, entry sizes vs. bytes, and the capacity sweep 0..GetSize+1 from the handle lab "
+             "through a capacity-limited probe writer (--c06)")
